@@ -151,7 +151,7 @@ theorem rstep_eq {r : Path} {w1 w2 : World} (h : WorldEq r w1 w2) (s : RSys) :
     (step w1 s.toSys).1 = (step w2 s.toSys).1 ∧ (step w1 s.toSys).2 = w1 ∧ (step w2 s.toSys).2 = w2 := by
   cases s with
   | lstat p =>
-    simp only [RSys.toSys, step]
+    simp only [RSys.toSys, step, statRes]
     rw [← h.resolve_eq p false]
     cases hres : resolve w1 p false with
     | err e => simp
@@ -168,7 +168,7 @@ theorem rstep_eq {r : Path} {w1 w2 : World} (h : WorldEq r w1 w2) (s : RSys) :
         | none => simp
         | some n => simp [statOf_eq h q i n hu hl]
   | stat p =>
-    simp only [RSys.toSys, step]
+    simp only [RSys.toSys, step, statRes]
     rw [← h.resolve_eq p true]
     cases hres : resolve w1 p true with
     | err e => simp
